@@ -20,7 +20,7 @@ pub use slicer::SlicedBiasComputer;
 #[cfg(feature = "llg_verif")]
 pub use from_guidance::verif_optimizer_dump;
 #[cfg(feature = "llg_verif")]
-pub use grammar::VerifSym;
+pub use grammar::{VerifCGrammar, VerifSym};
 #[cfg(feature = "llg_verif")]
 pub use parser::VerifState;
 #[cfg(feature = "llg_verif")]
